@@ -109,13 +109,14 @@ pub struct Trace {
     pub path: PathBuf,
     known_dict: HashSet<String>,
     known_bijoy: HashSet<String>,
+    known_json: HashSet<u64>,
     pub lines: u64,
 }
 
 impl Trace {
     pub fn create(path: &Path, tsv_dir: &Path) -> Trace {
         let mut t = Trace { out: BufWriter::new(std::fs::File::create(path).unwrap()), path: path.to_path_buf(),
-                            known_dict: HashSet::new(), known_bijoy: HashSet::new(), lines: 0 };
+                            known_dict: HashSet::new(), known_bijoy: HashSet::new(), known_json: HashSet::new(), lines: 0 };
         for k in ["suffix", "autocorrect", "emoticon", "emojiname", "emojibn", "dictionary"] {
             t.line(&format!("load {} {}", k, tsv_dir.join(format!("{}.tsv", k)).display()));
         }
@@ -143,6 +144,30 @@ impl Trace {
             }
         }
     }
+    /// tie for the Lean JSON fragment (Model/Json): the bytes of a per-user file and what serde_json made of them
+    pub fn json_read(&mut self, bytes: &[u8]) {
+        if bytes.len() > 16384 { return; }
+        let h = fxhash_bytes(bytes);
+        if !self.known_json.insert(h) { return; }
+        let mut l = format!("json-read {} ", if bytes.is_empty() { "\\e".to_string() } else { hex(bytes) });
+        match serde_json::from_slice::<HashMap<String, String>>(bytes) {
+            Err(_) => l.push('-'),
+            Ok(m) => {
+                let mut kv: Vec<_> = m.into_iter().collect(); kv.sort();
+                l.push('=');
+                for (k, v) in kv { l.push(' '); l.push_str(&esc(&k)); l.push(' '); l.push_str(&esc(&v)); }
+            }
+        }
+        self.line(&l);
+    }
+    /// the complete file the engine has just written (serde_json::to_string of its map)
+    pub fn json_written(&mut self, bytes: &[u8]) {
+        if bytes.len() > 16384 || bytes.is_empty() { return; }
+        let h = fxhash_bytes(bytes) ^ 0x5bd1e995;
+        if !self.known_json.insert(h) { return; }
+        let l = format!("json-written {}", hex(bytes));
+        self.line(&l);
+    }
     pub fn need_bijoy(&mut self, s: &str) {
         if self.known_bijoy.insert(s.to_string()) {
             let r = catch_unwind(AssertUnwindSafe(|| poriborton::bijoy2000::unicode_to_bijoy(s)));
@@ -154,6 +179,12 @@ impl Trace {
     }
 }
 
+pub fn hex(b: &[u8]) -> String { let mut s = String::with_capacity(b.len() * 2); for x in b { s.push_str(&format!("{:02x}", x)); } s }
+pub fn fxhash_bytes(b: &[u8]) -> u64 {
+    let mut h: u64 = 0xcbf29ce484222325;
+    for x in b { h ^= *x as u64; h = h.wrapping_mul(0x100000001b3); }
+    h
+}
 pub fn fxhash(s: &str) -> u64 {
     let mut h: u64 = 0xcbf29ce484222325;
     for b in s.bytes() { h ^= b as u64; h = h.wrapping_mul(0x100000001b3); }
@@ -207,6 +238,8 @@ pub struct Sess<'a> {
 pub fn emit_fs(t: &mut Trace, xdg: &Path) {
     let ud = user_dir(xdg);
     let sel = ud.join("phonetic-candidate-selection.json");
+    if let Ok(b) = std::fs::read(&sel) { t.json_read(&b); }
+    if let Ok(b) = std::fs::read(ud.join("autocorrect.json")) { t.json_read(&b); }
     match std::fs::read(&sel).ok().map(|b| serde_json::from_slice::<HashMap<String, String>>(&b).ok()) {
         None => t.line("fs-sel -"),
         Some(None) => t.line("fs-sel !"),
@@ -297,7 +330,10 @@ impl<'a> Sess<'a> {
     pub fn commit(&mut self, t: &mut Trace, i: usize) -> Obs {
         // the model needs to know what the outside world did to the files and whether the save can succeed *now*
         emit_fs(t, &self.xdg);
+        let selp = user_dir(&self.xdg).join("phonetic-candidate-selection.json");
+        let before = std::fs::read(&selp).ok();
         let o = self.imp.commit(i);
+        if let Ok(b) = std::fs::read(&selp) { if Some(&b) != before.as_ref() { t.json_written(&b); } }
         let on = if o == Obs::Panic { false } else { self.imp.ongoing() };
         t.line(&format!("commit {} {}", self.id, i));
         if o == Obs::Panic { t.line("> PANIC"); } else {
